@@ -167,7 +167,7 @@ def run_batch(prop_id, tier, seed, runs=None, workers=None, max_wall=None, selft
     t_start = time.time()
     budget = dict(mod.BUDGET[tier])
     n_runs = runs or budget["runs"]
-    max_wall = max_wall or budget.get("max_wall", 600 if tier == "quick" else 6 * 3600)
+    max_wall = max_wall or budget.get("max_wall", 600 if tier == "quick" else 5400)  # ends gracefully (evidence written) before the command timeout
     workers = workers or min(16, os.cpu_count() or 4)
     chunk = budget.get("chunk", 20)
     findings = load_findings()
